@@ -75,6 +75,12 @@ fn one(entry: &str) -> Option<Vec<u8>> {
             crypto_box::crypto_box_seal(&mut c, b"abc", &[9u8; 32]).unwrap();
             c[..32].to_vec()
         }
+        // a sealed box written into a LONGER output buffer (a fixed-size frame): the ephemeral key is still at the head
+        "box_seal_oversize" => {
+            let mut c = vec![0u8; 48 + 3 + 40];
+            crypto_box::crypto_box_seal(&mut c, b"abc", &[9u8; 32]).unwrap();
+            c[..32].to_vec()
+        }
         "pwhash_str" => {
             let s = crypto_pwhash::crypto_pwhash_str(b"pw", 1, 8192).unwrap();
             s.split('$').nth(4).unwrap().as_bytes().to_vec()
